@@ -11,7 +11,8 @@ INFO = {
              'recorded enter / saw-return / saw-exception trace and the final outcome must equal the model\'s, tokens '
              'compared by object identity. Non-trivial = >=2 phases populated and (a deviation is present or a unique '
              'type occurs at two levels); distinct (configuration, deviation) pairs counted.'),
-    'assumptions': ['two instances of one unique type inside a single list are not generated (the statement does not cover them)',
+    'assumptions': ['two instances of one unique type inside one list are generated only for the Route\'s own list (kept once / a non-reorderable one refused); '
+                    'when such a duplicate meets a second construction defect either documented exception is accepted',
                     're-raising error handler so that the original exception object is observable'],
 }
 
